@@ -10,8 +10,9 @@
     - [zadd_vars_facts]: [add_vars] + chain rebuild: [ZbddOK], complete chain, every
       old reference keeps its FAMILY, its Boolean function becomes "old function
       and all new variables false"; [zcacheokb_grows]: the cache invariant survives
-      in a grown table for every entry that does not depend on the number of
-      levels, and for Restrict entries if that number is unchanged;
+      in a grown table if no Restrict entry is keyed with the new number of levels
+      unless that number is unchanged (Restrict entries are keyed by the number of
+      levels and say something only for the table's own number);
     - [zgc_facts]: [gc_model] on the table whose roots are the handles and the
       chain: [ZbddOK], complete chain, families of the roots unchanged;
     - [zreorder_facts]: [set_var_order_model_z]: [ZbddOK], complete chain, handles
@@ -261,18 +262,17 @@ Proof.
     unfold is_empty_b, is_term_with, term_val in *. rewrite (gr_terms _ _ G), Et. reflexivity.
 Qed.
 
-(** the cache invariant in a grown table: the new view [cget'] of the cache serves
-    only what the old view [cget] served, and Restrict entries (which depend on the
-    number of levels) only if the number of levels is the same *)
-Lemma zcacheokb_grows : forall C (cget cget' : C -> N -> list ref -> list nat -> option ref) s s' c c',
+(** the cache invariant in a grown table: Restrict entries are keyed by the number of
+    levels and say something only for the table's own number; an entry keyed with the
+    number of levels of the grown table must not exist unless the number is unchanged *)
+Lemma zcacheokb_grows : forall C (cget : C -> N -> list ref -> list nat -> option ref) s s' c,
   ZbddOK s -> grows s s' ->
   (forall var vl, nth_error (s_v2l s) var = Some vl -> nth_error (s_v2l s') var = Some vl) ->
-  (forall k a m r, cget' c' k a m = Some r ->
-     cget c k a m = Some r /\ (k = zcode_restrict -> nlevels s' = nlevels s)) ->
-  ZCacheOKB C cget s c -> ZCacheOKB C cget' s' c'.
+  (forall a r, cget c zcode_restrict a [nlevels s'] = Some r -> nlevels s' = nlevels s) ->
+  ZCacheOKB C cget s c -> ZCacheOKB C cget s' c.
 Proof.
-  intros C cget cget' s s' c c' B G Hv Hser O code args nums r E.
-  destruct (Hser _ _ _ _ E) as [E0 Hne]. destruct (O _ _ _ _ E0) as [A A']. split.
+  intros C cget s s' c B G Hv Hser O code args nums r E.
+  destruct (O _ _ _ _ E) as [A A']. split.
   - unfold zentry_ok in *. destruct args as [|f [|g [|x rest]]]; auto.
     + destruct nums as [|var [|y rest]]; auto.
       intros o Hc. destruct (A o Hc) as [P [vl [Ev [D1 D2]]]]. exists P, vl.
@@ -280,15 +280,14 @@ Proof.
     + destruct nums as [|var rest]; auto.
       intros o Hc. destruct (A o Hc) as [P [Q [D1 [D2 D3]]]]. exists P, Q.
       split; [|split]; eapply zden_grows; eauto.
-  - unfold zentry_x in *. destruct args as [|f [|g [|h [|x rest]]]]; auto; destruct nums as [|v rest']; auto.
-    + destruct A' as [H7 H3]. split.
-      * intros Hc. destruct (H7 Hc) as (P & Q & DF & DG & DR). exists P, Q.
-        split; [|split]; eapply zden_grows; eauto.
-      * intros Hc. pose proof (Hne Hc) as Hn.
-        destruct (H3 Hc) as (P & id & nd & M & DF & -> & En & Hcu & DR).
-        exists P, id, nd, M. split; [eapply zden_grows; eauto|]. split; [reflexivity|].
-        split; [apply (gr_nodes _ _ G); exact En|]. split; [apply (zcube_grows s s' _ _ _ G Hn Hcu)|].
-        rewrite Hn. eapply zden_grows; eauto.
+  - unfold zentry_x in *. destruct args as [|f [|g [|h [|x rest]]]]; auto; destruct nums as [|v [|w rest']]; auto.
+    + intros Hc. destruct (A' Hc) as (P & Q & DF & DG & DR). exists P, Q.
+      split; [|split]; eapply zden_grows; eauto.
+    + intros Hc Hv'. subst code v. pose proof (Hser _ _ E) as Hn.
+      destruct (A' eq_refl Hn) as (P & id & nd & M & DF & -> & En & Hcu & DR).
+      exists P, id, nd, M. split; [eapply zden_grows; eauto|]. split; [reflexivity|].
+      split; [apply (gr_nodes _ _ G); exact En|]. split; [apply (zcube_grows s s' _ _ _ G Hn Hcu)|].
+      rewrite Hn. eapply zden_grows; eauto.
     + intros Hc. destruct (A' Hc) as (P & Q & R & DF & DG & DH & DR). exists P, Q, R.
       split; [|split; [|split]]; eapply zden_grows; eauto.
 Qed.
